@@ -10,13 +10,29 @@ TARGETS = ["Base/Num.vo", "Base/Corr.vo", "C07/Model.vo", "C07/ModelNewton.vo", 
            "C07/Proofs.vo", "C07/Refuted.vo", "C07/Props.vo"]
 PROPS = ["C07/Props.v"]
 CORPUS = os.path.join(vlib.ROOT, "corpus/C07/corpus.jsonl")
-PARTIAL = ("Theorems are about the hand-written oracle-machine models in coq/C07/Model.v; the objective (through AD), "
+PARTIAL = ("Theorems are about the hand-written oracle-machine models in coq/C07/Model*.v; the objective (through AD), "
            "hook and constraint callback are universally quantified oracles. Convergence rates and 'reaches the "
-           "minimiser within the cap' are not claimed. AD seed bookkeeping (Variables(1)) is checked by the tie, "
-           "not proved. newton: newton_root (RunRoot, RunCrit) is modelled with getDirection (linear solve / LDL / "
-           "eigenvalue modification) as an oracle whose logged answers feed the replay; newton_min (RunMin, its "
-           "lineSearch variant), saga and blahut are not modelled (blahut has no stop test of its own: it returns "
-           "only at the step cap or on a hook stop).")
+           "minimiser within the cap' are not claimed. AD seed bookkeeping (Variables(1/2), the -t1 seeds of RunMin's "
+           "phi) is checked by the tie, not proved. newton (RunRoot, RunCrit, RunMin and newton_min's back-tracking "
+           "variant through the add-only hook algorithm/newton/verif_c07.go): getDirection (linear solve / LDL / eigenvalue "
+           "modification) is an oracle whose logged answers feed the replay. saga: math/rand's draws are an oracle (the "
+           "thread partition is C17's); the stop theorem is about the CODED test (F-SAGA-STOP-ZERO-PREFIX: it is not the "
+           "test over all coordinates). blahut: the iteration body (log/exp/pow) is a step oracle, tied through a "
+           "lock-step re-implementation in the harness; blahut has no stop test of its own, the KKT clause is vacuous. "
+           "Constraint clause: proved for rprop, rprop_dense, adam_dense, newton_root, newton_min back-tracking; "
+           "_partial/refuted for lineSearch zoom (F-LS-ZOOM-CONS, also reaches bfgs), RunMin (F-NEWTON-MIN-CONS-LINE) and "
+           "adam.Run at the cap (F-ADAM-GENERIC-CAP). All theorems are fuel-relative (they hold for every fuel and say "
+           "nothing when the model returns OutOfFuel): loops WITHOUT an iteration cap in the code are listed in "
+           "'uncapped_loops' (hang findings are C20's).")
+
+UNCAPPED = [
+    "gradientDescent.go: the main loop (no MaxIterations option at all; ends only by stop test, hook, error or the NaN panic)",
+    "rprop.go / rprop_dense.go: the inner 'for { update x; evaluate; shrink step }' retry loop (MaxIterations caps only the outer loop)",
+    "lineSearch.go: 'for !constraints(alpha_j) { alpha_j *= 0.5 }' (ends only when the callback accepts; alpha_j = 0 is submitted forever if it is rejected)",
+    "newton.go: the back-tracking loops of newton_root and newton_min (end by acceptance or when x1 - t1 == x1: bounded in binary64, unbounded over the reals)",
+    "newton.go RunMin / bfgs.go: inherit lineSearch's constraint loop through constraints_line",
+    "capped: rprop outer loop, adam, adam_dense, bfgs, newton outer loops (MaxIterations), lineSearch / zoom (MaxEval), saga (epochs), blahut (steps)",
+]
 
 # sites of the hunt's property oracle that are known findings of the unchanged library
 # (each has a `_refuted` lemma on the model and a witness in corpus/C07)
@@ -105,6 +121,7 @@ def run(ctx):
         "math.Pow(x, 2.0) equals the correctly rounded x*x unless the square is subnormal (runs with such gradients are dropped and counted)",
         "axioms: see 'print_assumptions'"]
     ctx.cov["partial"] = PARTIAL
+    ctx.cov["uncapped_loops"] = UNCAPPED
     ok, failures = vlib.proof_stage(ctx, TARGETS, PROPS)
     thms = vlib.theorem_names(os.path.join(vlib.COQ, "C07/Props.v"))
     if ok:
@@ -114,7 +131,7 @@ def run(ctx):
         ctx.violation({"obligation": "build of harness/c07 against " + vlib.REPO, "log": blog[-3000:]}, False,
                       "tie lost: the C07 harness no longer builds against the library")
         return
-    n = 780 if ctx.tier == "quick" else 5200   # 3 of 13 runs are newton.RunRoot / RunCrit (round 2)
+    n = 780 if ctx.tier == "quick" else 5200   # of 13 runs: 3 newton_root, 2 newton_min, 2 saga, 1 blahut, 5 round-1 routines + adam.Run
     bad = corr(ctx, binary, n)
     known = known_sites()
     h = hunt(ctx, binary, bad)
